@@ -32,7 +32,7 @@ ASSUMPTIONS = ["no faults are injected in this check (see C20)",
                "the `lock` field is excluded: _get_instance_state deliberately externalises it as False",
                "every compared instance has a session when GET /save-state is called"]
 FAULT_KINDS = ["preemption", ]
-PROBES = ["saves_of_two_instances_overlap", "session_over_two_managers", "two_stepping_requests_in_flight", "numeric_manager_name", "abandoned_stream", "second_save_load_cycle", "live_instance_diverged_from_saved", "save_state_after_eviction", "second_session_in_instance", "loaded_via_timeout", "loaded_via_load_state", "loaded_via_restart", "saved_via_save_state", "compressed_mode",
+PROBES = ["step_failed_inside_a_run_steps_request", "unstepped_session_saved_by_save_state", "saves_of_two_instances_overlap", "session_over_two_managers", "two_stepping_requests_in_flight", "numeric_manager_name", "abandoned_stream", "second_save_load_cycle", "live_instance_diverged_from_saved", "save_state_after_eviction", "second_session_in_instance", "loaded_via_timeout", "loaded_via_load_state", "loaded_via_restart", "saved_via_save_state", "compressed_mode",
           "step_without_body", "step_with_empty_settings", "nonuniform_settings", "decimal_dt"]
 EXHAUSTIVE = {"quick": False, "thorough": False}
 
@@ -103,6 +103,9 @@ def generate(spec):
                 "settings": _sett(rng, template, scen) if rng.random() < 0.3 else {}}]
         budget = nmax
         fixed = _sett(rng, template, scen)
+        if save_route == "save_state" and rng.random() < 0.12:
+            budget = 0          # a session that was begun but never stepped: the whole-server save is the only thing that writes it
+            ops.append({"op": "results"})
         while budget > 0 and len(ops) < 9:
             r = rng.random()
             if uniform:
@@ -117,6 +120,11 @@ def generate(spec):
             elif r < 0.8:
                 n = min(budget, rng.choice([1, 2, 3]))
                 ops.append({"op": "steps", "n": n, "settings": s if s is not None else {}})
+                if n >= 2 and rng.random() < 0.25:
+                    # one of the later steps of the request fails (before it starts / in the middle of it): the request still
+                    # answers with the steps that were taken, and what was taken is what a restore brings back
+                    ops[-1]["raise_at"] = rng.randrange(1, n)
+                    ops[-1]["raise_where"] = rng.choice(["before", "inside"])
                 budget -= n
             elif r < 0.84 and len(ops) > 1 and budget > 3 and rng.random() < 0.5:
                 # two stepping requests of this instance in flight together (line-level schedule inside server and adapter):
@@ -147,7 +155,7 @@ def generate(spec):
                     # one request that lands exactly on the clock value the first session was last saved at
                     ops.append({"op": "steps", "n": taken, "settings": rng.choice([{}, _sett(rng, template, scen2)])})
                 else:
-                    for _ in range(rng.choice([taken, taken, max(1, taken - 1)])):
+                    for _ in range(rng.choice([taken, taken, max(1, taken - 1)] + ([0] if save_route == "save_state" else []))):
                         ops.append({"op": "step", "settings": rng.choice([{}, _sett(rng, template, scen2)])})
         if save_route == "auto":
             while ops and ops[-1]["op"] == "results":
@@ -286,7 +294,12 @@ def execute(case):
                     r = w.post("/%s/run-step" % iid, None if o["settings"] is None else {"settings": o["settings"]})
                     res.sim_units += 1
                 elif o["op"] == "steps":
-                    r = w.post("/%s/run-steps" % iid, {"settings": o["settings"], "numberSteps": o["n"]})
+                    tag_ = "i%dop%d" % (j, n)
+                    if o.get("raise_at") is not None:
+                        w.raise_at[tag_] = o["raise_at"]
+                        w.raise_where[tag_] = o.get("raise_where", "before")
+                        res.probe("step_failed_inside_a_run_steps_request")
+                    r = w.post("/%s/run-steps" % iid, {"settings": o["settings"], "numberSteps": o["n"]}, tag=tag_)
                     res.sim_units += o["n"]
                 elif o["op"] == "pair":
                     from sim.threads import Scheduler, make_policy, run_tasks
@@ -381,6 +394,11 @@ def execute(case):
                 if now != before[j] or _strip(live) != _strip(state_before[j]):
                     res.violate("C19.0-save-disturbed-live-instance", {"inst": j, "before": str(before[j])[:200], "after": str(now)[:200]})
             externalised = {j for j, iid in enumerate(ids) if ("/state/%s.json" % iid) in w.fs.files}
+            if case["save_route"] == "save_state":
+                # the whole-server save writes every instance that has a session, stepped or not
+                externalised |= {j for j in range(len(ids)) if state_before[j] is not None}
+                if any(state_before[j] is not None and not state_before[j].get("results_log") for j in range(len(ids))):
+                    res.probe("unstepped_session_saved_by_save_state")
             if case.get("diverge") and cno == 0 and route in ("load_state", "restart"):
                 # the live instance moves away from what was saved through requests that do not write to the adapter
                 # (a session ended, another one begun but not stepped): loading brings the SAVED session back
